@@ -11,7 +11,7 @@ cmd=$(python3 -c "import json;print(json.load(open('$m/meta.json'))['demo_cmd'])
 echo "demo_pkg_dir=$pkg"; echo "demo_cmd=$cmd"
 demo=$(ls $m/*_test.go | head -1)
 cp "$demo" "$wt/$pkg/zz_demo_test.go"
-run_demo() { (cd "$wt" && timeout 300 go test -tags verif -vet=off -count=1 -timeout 120s -run 'Demo|C0[0-9]|M[12]' ./$pkg 2>&1 | tail -5); }
+run_demo() { (cd "$wt" && timeout 300 go test -tags verif -vet=off -count=1 -timeout 120s -run 'Demo|C[0-9][0-9]|[Mm][12]' ./$pkg 2>&1 | tail -5); }
 echo "--- demo on unchanged tree"; run_demo | grep -E "^(ok|FAIL|---|panic)" | tail -3
 git apply --check "$m/patch.diff" || { echo "PATCH DOES NOT APPLY"; exit 1; }
 git apply "$m/patch.diff"
